@@ -67,7 +67,9 @@ func (ex *Explorer) newInterp() (*Interp, error) {
 		constCache:     map[*ssa.Const]Value{},
 		stubs:          ex.stubs,
 		intrinsicCache: map[*ssa.Function]intrinsicFn{},
+		fnInfos:        map[*ssa.Function]*fnInfo{},
 		params:         ex.params,
+		noModelCache:   os.Getenv("GOSYM_NO_MODEL_CACHE") != "",
 	}
 	if ex.kernel != nil && ex.kernel.NoMerge {
 		in.noMerge = true
@@ -86,6 +88,7 @@ func (in *Interp) runPath(entry *ssa.Function) (end pathEnd) {
 	in.depth = 0
 	in.symMapOrder = false
 	in.undefN = 0
+	in.live = append(in.live[:0], in.all...)
 	in.evlog = in.evlog[:0]
 	in.mergeGuard = nil
 	in.noMerge = in.cfg != nil && in.cfg.NoMerge
@@ -168,6 +171,7 @@ func (ex *Explorer) worker(id int, wg *sync.WaitGroup) {
 	ex.stats.MergeAborts += st.MergeAborts
 	ex.stats.Steps += st.Steps
 	ex.stats.Unknowns += st.Unknowns
+	ex.stats.WitnessHits += st.WitnessHits
 	for k, v := range st.Ends {
 		ex.stats.Ends[k] += v
 	}
